@@ -87,7 +87,13 @@ func c01Forgeries(r *core.Run, w *world.World) []c01Forgery {
 	edgeKeys := map[string][]byte{
 		"ak-zero":     make([]byte, 64),
 		"ak-offcurve": func() []byte { b := p.AK.Pub64(); b[63] ^= 1; return b }(),
-		"ak-x-ge-p":   func() []byte { b := p.AK.Pub64(); for i := 0; i < 32; i++ { b[i] = 0xff }; return b }(),
+		"ak-x-ge-p": func() []byte {
+			b := p.AK.Pub64()
+			for i := 0; i < 32; i++ {
+				b[i] = 0xff
+			}
+			return b
+		}(),
 	}
 	for _, k := range core.SortedKeys(edgeKeys) {
 		q := base()
@@ -244,8 +250,17 @@ func c01Run(r *core.Run) {
 	if t.Chance(1, 3) {
 		cfg.ExtraBytes = 1 + t.Draw(16)
 	}
+	// every third world lives at the wall clock's "now", so that the same forgeries can also be verified with
+	// Options.Now unset (the library then reads the clock itself; windows are weeks wide, the hour does not matter)
+	nowWorld := r.Index%3 == 2
+	if nowWorld {
+		cfg.Epoch = time.Now().UTC().Truncate(time.Hour)
+		cfg.NetLat = -1 // inside a fake-clock bubble "now" would be another day
+		r.Probe("world_at_wall_clock_now")
+	}
 	w := world.NewWorld(t, cfg)
-	r.Eventf("world %s", w.Describe())
+	r.Eventf("world %s", tern(nowWorld, "(at wall-clock now)", w.Describe()))
+	r.Fault("net:every_fetch_takes_simulated_time", w.NetLat > 0)
 	raw, regs := w.Quote.BytesRegions()
 
 	// positive control (reported by C11, only counted here)
@@ -379,6 +394,20 @@ func c01Run(r *core.Run) {
 				}
 				judge(forgeryKind(f.name), f.name, o, optNames[level], forms[i])
 			}
+			// the same with the verification time left to the library
+			if nowWorld && f.q != nil {
+				on := worldOpts(w, level)
+				on.Now = nil
+				o := verifyMsg(f.q.Proto(0), on)
+				if isControl {
+					if !o.Accepted() {
+						r.Count("control_failed", 1)
+					}
+				} else {
+					judge(forgeryKind(f.name), f.name+" (Options.Now unset)", o, optNames[level], "TdxQuote(message)")
+					r.Probe("forgery_with_now_unset")
+				}
+			}
 		}
 		r.Fault("forgery:"+forgeryKind(f.name), true)
 		r.State("forgery %s auth=%s", f.name, lenBucket(len(w.Quote.Auth)))
@@ -465,6 +494,6 @@ func init() {
 			return 24
 		},
 		Run:       c01Run,
-		MustProbe: []string{"bitflips_enumerated", "message_high_bits", "forgery_under_getter_fault"},
+		MustProbe: []string{"bitflips_enumerated", "message_high_bits", "forgery_under_getter_fault", "forgery_with_now_unset"},
 	})
 }
